@@ -3,7 +3,8 @@
    other properties (C01, C03) may take  cfg_wf i  as their hypothesis on an accepted interface.
    cfg_wfb is the boolean form (reflection lemma cfg_wfb_iff in Proofs/ConfigWf.v).
    Definitions only. *)
-From CR Require Export Model.Types Base.IP.
+From CR Require Export Model.Types.
+From CR Require Export Base.IP.
 Local Open Scope Z_scope.
 
 (* netip.Addr.Is4In6 *)
